@@ -838,6 +838,28 @@ v("C18", "benign-admission-swapped", "benign", BASE,
   "            return self.current_load + frame.size_Mbits <= self.bandwidth",
   "            return self.bandwidth >= frame.size_Mbits + self.current_load", None, "operands swapped")
 
+v("C14", "revert-937febc-folder-scan-armed-with-zero", "break", FOLDER,
+  "            self.scan_countdown = max(self.scan_duration, 1)",
+  "            self.scan_countdown = self.scan_duration", "R14.6", "duration 0 never completes")
+v("C14", "revert-90d269d-node-scan-armed-with-zero", "break", BASE,
+  "        self.node_scan_countdown = max(self.config.node_scan_duration, 1)",
+  "        self.node_scan_countdown = self.config.node_scan_duration", "R14.6", "duration 0 never scans")
+v("C14", "fix-completion-tested-with-equality", "break", P + "simulator/system/software.py",
+  "        if self._fixing_countdown <= 0:",
+  "        if self._fixing_countdown == 0:", "R14.6", "fixing_duration 0 stays FIXING forever")
+v("C14", "node-scan-skips-closed-applications", "break", BASE,
+  '''                    for application_id in self.applications:
+                        self.applications[application_id].scan()''',
+  '''                    for application_id in self.applications:
+                        if self.applications[application_id].operating_state.name == "RUNNING":
+                            self.applications[application_id].scan()''', "R14.6", "scan fan-out conditional")
+v("C14", "folder-scan-default-from-restore-default", "break", FS,
+  "            folder.scan_duration = self._default_folder_scan_duration",
+  "            folder.scan_duration = self._default_folder_restore_duration", "R14.6", "duration taken from another setting")
+v("C14", "benign-arming-with-max-swapped", "benign", FOLDER,
+  "            self.restore_countdown = max(self.restore_duration, 1)",
+  "            self.restore_countdown = max(1, self.restore_duration)", None, "operands of max swapped")
+
 # ------------------------------------------------------------------------------------------------ C15
 v("C15", "restore-keeps-deleted-entry", "break", FOLDER,
   '''        if file.deleted:
@@ -1237,8 +1259,8 @@ v("C14", "fix-finishes-early", "break", SOFTWARE,
   "        self._fixing_countdown -= 1\n        if self._fixing_countdown <= 0:\n            self.set_health_state(SoftwareHealthState.GOOD)",
   "        self._fixing_countdown -= 1\n        if self._fixing_countdown is not None:\n            self.set_health_state(SoftwareHealthState.GOOD)", "R14.4", "GOOD after one tick whatever the duration")
 v("C14", "node-scan-duration-ignored", "break", BASE,
-  "        self.node_scan_countdown = self.config.node_scan_duration\n        return True",
-  "        self.node_scan_countdown = self.config.start_up_duration\n        return True", "R14.4", "whole-node scan timed by the start-up duration")
+  "        self.node_scan_countdown = max(self.config.node_scan_duration, 1)\n        return True",
+  "        self.node_scan_countdown = max(self.config.start_up_duration, 1)\n        return True", "R14.4", "whole-node scan timed by the start-up duration")
 v("C14", "benign-scan-local", "benign", SOFTWARE,
   "        self.health_state_visible = self.health_state_actual\n        return True",
   "        actual = self.health_state_actual\n        self.health_state_visible = actual\n        return True", None, "copy through a local")
